@@ -2,8 +2,10 @@
 
 Same runner and model as C08, case mode "s": the observation is the verdict followed by the number of
 loop iterations (hook verif_steps: work loop + get_next_check + unwind).  The runner runs every case
-twice from scratch and answers "nondeterministic" when the two runs differ.  A hang shows as
-"timeout" (watchdog: CASE_TIMEOUT per shard).
+twice from scratch ("nondeterministic" when they differ), again on the same TypeCheckContext, and on
+contexts on which a different check with the same name as the root check was used before and after
+("unstable:<run>" when the answer changes); the model, a pure function, prints "stable".  Each case runs
+under a watchdog in the runner: a hang shows as "timeout".
 The oracle recomputes the proved bound 5*step_bound+2 from the case text (independently of the model).
 """
 import itertools
@@ -100,11 +102,13 @@ def step_bound(octx, tctx, obj, chk):
 
 
 def oracle(case, obs, prof):
-    if obs in ('timeout', 'nondeterministic', 'fuel', 'missing', 'notrun', 'panic') or obs.startswith('crash'):
+    if obs in ('timeout', 'fuel', 'missing', 'notrun', 'panic') or obs.startswith('crash'):
         return 'type checking did not terminate normally: %s' % obs
-    if ' steps=' not in obs:
+    if obs == 'nondeterministic' or obs.startswith('unstable'):
+        return 'type checking did not return the same verdict every time it was run: %s' % obs
+    if ' steps=' not in obs or not obs.endswith(' stable'):
         return 'unexpected observation %s' % obs
-    steps = int(obs.split(' steps=')[1])
+    steps = int(obs.split(' steps=')[1].split(' ')[0])
     mode, octx, tctx, chk, obj = T.parse_case(case)
     b = 5 * step_bound(octx, tctx, obj, chk) + 2
     if steps > b:
@@ -182,6 +186,39 @@ def random_graph(rng, n):
     return ctx
 
 
+def rho_chain(tail, cyc, first=1):
+    """bare-reference objects first .. first+tail+cyc-1: a tail of [tail] references leading into a
+    cycle of [cyc] references (entered at [first], which is not on the cycle)"""
+    n = tail + cyc
+    ctx = {}
+    for k in range(n):
+        nxt = first + k + 1 if k + 1 < n else first + tail
+        ctx[(first + k, 0)] = ('R', nxt, 0)
+    return ctx
+
+
+def rho_cases(mode):
+    """reference chains that never reach an object, entered outside their cycle: as the root object,
+    as array element, as dictionary value, and as a kid under the recursive page-tree type"""
+    out = []
+    node = ('@', 'node')
+    tree = {'node': rep(('D', ((K_, rep(('A', rep(('O', (node, rep(('p', 'n')))), None, '!'), None)), '?'),
+                               (P_, rep(('_',), None, '!'), '?')), None))}
+    for tail in (1, 2, 3):
+        for cyc in (1, 2, 3):
+            ctx = rho_chain(tail, cyc)
+            r1 = ('R', 1, 0)
+            out.append(T.mk_case(mode, ctx, {}, rep(('p', 'n')), r1))
+            out.append(T.mk_case(mode, ctx, {}, rep(('p', 'i'), None, '!'), r1))
+            out.append(T.mk_case(mode, ctx, {}, rep(('A', rep(('O', (rep(('p', 'n')), rep(('p', 'i'))))), None)), ('A', (('i', 5), r1, r1))))
+            out.append(T.mk_case(mode, ctx, {}, rep(('D', ((K_, rep(('p', 'n')), '+'),), (rep(('p', 'i')), '?'))), ('D', ((K_, r1), (L_, ('i', 5))))))
+            c2 = dict(ctx)
+            c2[(10, 0)] = ('D', ((K_, ('A', (r1, ('R', 11, 0)))),))
+            c2[(11, 0)] = ('D', ((K_, ('A', ())), (P_, ('R', 10, 0))))
+            out.append(T.mk_case(mode, c2, tree, node, ('R', 10, 0)))
+    return out
+
+
 REF_LOOPS = [
     's 1.0=R1.0 - i R1.0',
     's 1.0=R2.0;2.0=R1.0 - D() R1.0',
@@ -246,6 +283,13 @@ def cases(tier, rng):
         mode, octx, tctx, chk, obj = T.parse_case(c)
         if T.closed_spec(tctx, chk):
             out.append(c)
+    out = list(dict.fromkeys(out))
+    # the chains with a tail before their cycle, spread over the whole list (a hang costs one
+    # watchdog period of the shard it is in)
+    rho = rho_cases('s')
+    gap = max(1, len(out) // (len(rho) + 1))
+    for k, c in enumerate(rho):
+        out.insert(min(len(out), (k + 1) * gap + k), c)
     return list(dict.fromkeys(out))
 
 
@@ -263,7 +307,9 @@ RULE = ('every directed graph over 1 and 2 indirect objects (nodes << /K [kids] 
         'links: self references, node among its own descendants, page/parent cycles) x 5 recursive specifications (page-tree like, '
         'recursive in both directions, mutually recursive through two names with a * entry, recursive disjunction, recursive '
         'heterogeneous arrays); graphs over 3 objects exhaustively (thorough) or sampled, over 4 objects random, with reference '
-        'chains, self-referential objects, duplicated kids; plus random specification/object pairs of C08.  Every case is run twice; '
+        'chains, self-referential objects, duplicated kids; reference chains with a tail of 1-3 before a cycle of 1-3 (as root, array element, '
+        'dictionary value, kid of the recursive page-tree type); plus random specification/object pairs of C08.  Every case is run 7 times '
+        '(fresh / same / used TypeCheckContext with a same-named decoy check) under a watchdog; '
         'non-trivial = recursive specification over a context with references')
 TRUSTED = ['model of pdf_type_check.rs in coq/Model/TypeCheck.v (hand transcription, validated by the C08/C09 correspondence runs)',
            'hook verif_steps (commit 68a7afd): counter incremented at the heads of the three loops']
